@@ -36,6 +36,9 @@ def run(ctx: Ctx):
     from .common import generic_lints
 
     generic_lints(ctx)
+    from .common import subtotal_free_types
+
+    subtotal_free_types(ctx)
     from .common import dependency_footprints
 
     dependency_footprints(ctx)
